@@ -281,6 +281,8 @@ def tfn_suites(ctx, exe, tier):
 # ---------------------------------------------------------------------------
 # the malformed stream
 
+BORDERLINE = re.compile(r'^(long|many|deep|big)-[a-z-]+/4000')
+
 # family -> (quick size, thorough size); None = all
 SIZES = {
     'form': (900, None), 'form-token': (300, None), 'block-skel': (300, None),
@@ -296,6 +298,7 @@ def build_stream(ctx, tier, corpus):
     sub-sample of it and the order.  quick is a subset of thorough for every
     seed."""
     fams = []
+    SIZES.update({k: tuple(v) for k, v in json.loads(os.environ.get('C06_CAPS', '{}')).items()})
     det = {
         'form': c06gen.statement_forms(),
         'form-token': c06gen.form_token_mutations(),
@@ -331,7 +334,9 @@ def build_stream(ctx, tier, corpus):
                        'src': c06gen.apply_mutation(toks[ci], m)}
                       for ci, m in allm[:SIZES['corpus'][1]]]
     for name in ('form', 'form-token', 'block-skel', 'block', 'block3', 'expr', 'prog', 'corpus'):
-        lst = full[name]
+        # the 4000-element texts sit at the edge of the time limit (outcome
+        # would depend on the speed of the host): left out, 50/200/1000 stay
+        lst = [c for c in full[name] if not BORDERLINE.match(c['cls'])]
         rng = random.Random(f'{ctx.seed}/{name}')
         if tier == 'quick':
             q = min(SIZES[name][0], len(lst))
@@ -431,9 +436,10 @@ def main(tier, seed):
         '0 <= loc_start <= len(text) that display_with_context can show may escape compile(); '
         'bytes(code) and str(code) succeed on accepted texts; CPU-time limit per configuration',
     ]
-    ctx.prove()
-    exe = ctx.model('Tokens')
-    tfn_suites(ctx, exe, tier)
+    if not os.environ.get('C06_SOAK'):     # (soaking the stream needs no rebuild)
+        ctx.prove()
+        exe = ctx.model('Tokens')
+        tfn_suites(ctx, exe, tier)
 
     corpus = [c for c in vlib.run_impl('corpus.load', [None])[0] if 'src' in c]
     fams, space = build_stream(ctx, tier, corpus)
